@@ -9,4 +9,5 @@ CONSTANTS
   Families = {"one"}
   NRand = 0
   RandSize = 0
+INVARIANT TreesOK0
 INVARIANT Emit
